@@ -162,12 +162,13 @@ func (e *cbEnv) extended() {
 		x.failingStorageCalls, x.failingStorageUnderIteration, x.danglingNext,
 		x.refusedOpens, x.rawDigester, x.rawDigesterIterations, x.failingProviders,
 	}
-	for _, f := range steps {
+	for i, f := range steps {
 		if x.stop() {
 			return
 		}
 		atree.VerifSetThreshold(e.T)
-		f()
+		// the scenarios guard their requests themselves; this catches a panic in their set-up requests
+		_ = x.guard(fmt.Sprintf("callbackfail extension, step %d (set-up request)", i), func() error { f(); return nil })
 	}
 }
 
